@@ -46,6 +46,9 @@ type c04World struct {
 	hub  *recHub
 	toks []*c04Tok
 	log  []string
+	// customNext: the next root-created token gets an operator-chosen id (its cubbyhole is addressed differently)
+	customNext bool
+	customN    int
 }
 
 func newC04World(t *testing.T, transactional bool, haOpt ...bool) *c04World {
@@ -84,6 +87,11 @@ func (w *c04World) createT(parent int, orphan, batch bool) (*c04Tok, rr) {
 	if parent < 0 && orphan {
 		data["no_parent"] = true
 	}
+	if parent < 0 && w.customNext {
+		w.customN++
+		data["id"] = fmt.Sprintf("c04-chosen-id-%d-%d", len(w.toks), w.customN)
+	}
+	w.customNext = false
 	id, acc, r := w.tc.createToken(ptok, data)
 	if id == "" {
 		return nil, r
@@ -330,8 +338,10 @@ func TestVerif_C04_Histories(t *testing.T) {
 					}
 				}
 				orphan := parent < 0 && rapid.Bool().Draw(rt, "orphan")
+				w.customNext = parent < 0 && rapid.Bool().Draw(rt, "operatorChosenID")
+				custom := w.customNext
 				tk, r := w.create(parent, orphan)
-				w.logf("create parent=%d orphan=%v -> %v", parent, orphan, r)
+				w.logf("create parent=%d orphan=%v operator-chosen-id=%v -> %v", parent, orphan, custom, r)
 				if tk == nil {
 					fail("create-failed", fmt.Sprintf("token creation under live parent %d failed: %v", parent, r))
 				}
@@ -401,8 +411,16 @@ func TestVerif_C04_Histories(t *testing.T) {
 						rich = true
 					}
 				}
+				// sometimes the secrets engine refuses the revocations for the moment: the leases of the revoked tokens
+				// then stay "queued for revocation" for a while instead of disappearing within milliseconds
+				refuse := fairIndex(rt, "backendRefusesRevocationForNow", 4) == 0
+				if refuse {
+					w.hub.mu.Lock()
+					w.hub.failRevoke = true
+					w.hub.mu.Unlock()
+				}
 				r := w.revoke(kind, i)
-				w.logf("%s %d -> %v", kind, i, r)
+				w.logf("%s %d (backend refuses revocations for now: %v) -> %v", kind, i, refuse, r)
 				if r.ok() {
 					if w.toks[i].alive {
 						w.applyRevoked(kind, i)
@@ -410,6 +428,29 @@ func TestVerif_C04_Histories(t *testing.T) {
 							nontrivial = true
 						}
 					}
+					// a lease of a revoked token is "revoked or queued for immediate revocation": nobody can renew it
+					// back to life, however soon after the revocation the renewal arrives
+					for _, j := range sub {
+						if w.toks[j].alive {
+							continue
+						}
+						for _, l := range w.toks[j].leases {
+							rr2 := w.tc.req(logical.UpdateOperation, "sys/leases/renew", w.tc.root, map[string]any{"lease_id": l.leaseID, "increment": 3600})
+							if rr2.ok() && rr2.resp != nil && rr2.resp.Secret != nil && rr2.resp.Secret.TTL > 0 {
+								w.hub.mu.Lock()
+								w.hub.failRevoke = false
+								w.hub.mu.Unlock()
+								fail("lease-of-revoked-token-renewed", fmt.Sprintf("lease %s of token %d, revoked a moment ago by %s of token %d, was renewed for %v", l.leaseID, j, kind, i, rr2.resp.Secret.TTL))
+							}
+						}
+					}
+				}
+				if refuse {
+					w.hub.mu.Lock()
+					w.hub.failRevoke = false
+					w.hub.mu.Unlock()
+				}
+				if r.ok() {
 				} else if w.toks[i].alive {
 					fail("revoke-failed", fmt.Sprintf("%s of live token %d failed without any fault: %v", kind, i, r))
 				}
